@@ -272,3 +272,37 @@ def detect_vflags(c):
         else:
             notes[name] = 'neither variant matches'
     return ''.join(flags), notes
+
+
+# ---------------------------------------------------------------------------------------------------------------
+# reach of the unbounded theorems on the generated cases (the boolean hypotheses of the theorems, evaluated by the
+# extracted definitions themselves)
+REACH_BITS = ('wf_coreb', 'wf_initb', 'wf_histb', 'wf_fastb', 'core_treeb', 'c01_treeb', 'eq_chartb')
+
+
+def theorem_reach(c, cases, vflags='0000', want=('reach', 'runguard', 'eqguard')):
+    """per case: {'reach': {bit: bool}, 'run': (static_okb, run_guardb, run_completeb), 'eq': (eq_chartb, eq_guard_run)}
+    computed by the extracted Coq definitions (extract/chart: commands reach / runguard / eqguard)"""
+    vm = ensure_vmodel('chart')
+    out = [dict() for _ in cases]
+    sx = [G.sx_tree(x['tree']) for x in cases]
+    evs = [' '.join(G.hx(e) for e in x['events']) for x in cases]
+    late = [1 if x['late'] else 0 for x in cases]
+    if 'reach' in want:
+        memo = {}
+        keys = [(late[i], sx[i]) for i in range(len(cases))]
+        uniq = sorted(set(keys))
+        o, _ = run_lines_sharded(vm, ['reach %d %s' % k for k in uniq], timeout=1500)
+        for k, r in zip(uniq, o):
+            memo[k] = {b: (len(r) > j and r[j] == '1') for j, b in enumerate(REACH_BITS)} if not r.startswith('ERR') else {}
+        for i, k in enumerate(keys):
+            out[i]['reach'] = memo[k]
+    if 'runguard' in want:
+        o, _ = run_lines_sharded(vm, ['runguard %d %d %s (%s)' % (late[i], FUEL, sx[i], evs[i]) for i in range(len(cases))], timeout=1500)
+        for i, r in enumerate(o):
+            out[i]['run'] = tuple(ch == '1' for ch in r[:3]) if len(r) >= 3 and set(r[:3]) <= set('01') else (False, False, False)
+    if 'eqguard' in want:
+        o, _ = run_lines_sharded(vm, ['eqguard %s %d %d %s (%s)' % (vflags, late[i], FUEL, sx[i], evs[i]) for i in range(len(cases))], timeout=1500)
+        for i, r in enumerate(o):
+            out[i]['eq'] = tuple(ch == '1' for ch in r[:2]) if len(r) >= 2 and set(r[:2]) <= set('01') else (False, False)
+    return out
